@@ -255,7 +255,7 @@ func ruleSamples(r styleRule, good bool) []string {
 		return []string{"zzz()", "@x"}
 	default:
 		if good {
-			return []string{"red", "#fff", "10px", "left", "underline", "arial", "1px solid red", "0.5", "none", "2em", "url(http://x.y/z.png)", "1s"}
+			return []string{"red", "#fff", "10px", "left", "underline", "arial", "1px solid red", "0.5", "none", "2em", "url(http://x.y/z.png)", "1s", "'foo  bar'", "'times new roman'", "'a   b'"}
 		}
 		return []string{"expression(alert(1))", "url(javascript:alert(1))", "@import"}
 	}
